@@ -54,19 +54,55 @@ theorem mem_ofInt (k n : Int) : mem k (ofInt n) ↔ k = n := by
 theorem mem_of_isTop {k : Int} {c : Cong} (hb : c.isBot = false) (h : c.isTop = true) : mem k c := by
   simp [isTop] at h; simp [mem, hb, h]
 
-/-- the normalising constructor keeps the class: `b % a ≡ b (mod a)` -/
+/-- the normalising constructor keeps the class: `|a|` generates the same ideal and the
+    reduced residue differs from `b` by a multiple of `|a|` -/
 theorem mem_mk' (k a b : Int) : mem k (mk' a b) ↔ a ∣ k - b := by
   unfold mk' mem
-  by_cases ha : a = 0
-  · simp [ha]
-  · simp only [ha, ne_eq, not_false_eq_true, if_true, true_and]
-    have : k - Int.tmod b a = (k - b) + a * Int.tdiv b a := by rw [Int.tmod_def]; omega
-    rw [this]
-    constructor
-    · intro h
-      have := Int.dvd_sub h (Int.dvd_mul_right a (Int.tdiv b a))
-      simpa using this
-    · intro h; exact Int.dvd_add h (Int.dvd_mul_right _ _)
+  simp only [true_and]
+  generalize ha' : (if a < 0 then -a else a) = a'
+  have hdvd : ∀ x, a' ∣ x ↔ a ∣ x := by
+    intro x; rw [← ha']; split
+    · exact Int.neg_dvd
+    · exact Iff.rfl
+  by_cases h0 : a' = 0
+  · simp only [h0, ne_eq, not_true_eq_false, if_false]
+    rw [← h0]; exact hdvd _
+  · simp only [h0, ne_eq, not_false_eq_true, if_true]
+    have hm : a' ∣ b - Int.tmod b a' := by
+      rw [Int.tmod_def]
+      have : b - (b - a' * b.tdiv a') = a' * b.tdiv a' := by omega
+      rw [this]; exact Int.dvd_mul_right _ _
+    rw [← hdvd]
+    split
+    · have e : k - (Int.tmod b a' + a') = (k - b) + ((b - Int.tmod b a') - a') := by omega
+      rw [e]
+      have h2 : a' ∣ (b - Int.tmod b a') - a' := Int.dvd_sub hm (Int.dvd_refl _)
+      constructor
+      · intro h
+        have := Int.dvd_sub h h2
+        simpa using this
+      · intro h; exact Int.dvd_add h h2
+    · have e : k - Int.tmod b a' = (k - b) + (b - Int.tmod b a') := by omega
+      rw [e]
+      constructor
+      · intro h
+        have := Int.dvd_sub h hm
+        simpa using this
+      · intro h; exact Int.dvd_add h hm
+
+/-- the normalising constructor produces the standard form -/
+theorem wf_mk' (a b : Int) : WF (mk' a b) := by
+  unfold mk' WF
+  simp only [Bool.false_eq_true, false_implies, and_true]
+  generalize ha' : (if a < 0 then -a else a) = a'
+  have hnn : 0 ≤ a' := by rw [← ha']; split <;> omega
+  refine ⟨hnn, ?_⟩
+  intro h0
+  simp only [h0, ne_eq, not_false_eq_true, if_true]
+  have hpos : 0 < a' := by omega
+  have h1 := Int.tmod_lt_of_pos b hpos
+  have h2 := Int.lt_tmod_of_pos b hpos
+  split <;> omega
 
 theorem contains_iff (c : Cong) (k : Int) : c.contains k = true ↔ mem k c := by
   unfold contains mem
@@ -91,16 +127,7 @@ theorem mem_trans_dvd {k a a' b b' : Int} (h : a ∣ k - b) (ha : a' ∣ a) (hb 
 
 /-! ### order -/
 
-theorem leqFinal_sound {x o : Cong} (ho : o.isBot = false)
-    (h : leqFinal x o = some true) {k : Int} (hk : mem k x) : mem k o := by
-  unfold leqFinal at h
-  split at h
-  · simp at h
-  · simp only [Option.some.injEq, Bool.and_eq_true, beq_iff_eq] at h
-    obtain ⟨h1, h2⟩ := h
-    exact ⟨ho, mem_trans_dvd hk.2 (Int.dvd_of_tmod_eq_zero h1) (dvd_sub_of_tmod_eq h2)⟩
-
-theorem leq_sound {x o : Cong} (h : leq x o = some true) {k : Int} (hk : mem k x) : mem k o := by
+theorem leq_sound {x o : Cong} (h : leq x o = true) {k : Int} (hk : mem k x) : mem k o := by
   have hx := hk.1
   unfold leq at h
   simp only [hx, Bool.false_eq_true, if_false] at h
@@ -110,37 +137,57 @@ theorem leq_sound {x o : Cong} (h : leq x o = some true) {k : Int} (hk : mem k x
     have ho : o.isBot = false := by simpa using ho
     split at h
     · rename_i h0
-      simp only [Option.some.injEq, beq_iff_eq] at h
-      obtain ⟨hk1, hk2⟩ := hk
+      simp only [beq_iff_eq] at h
+      obtain ⟨_, hk2⟩ := hk
       refine ⟨ho, ?_⟩
       rw [h0.2, ← h]; rw [h0.1] at hk2; exact hk2
     · split at h
-      · rename_i hxa
-        split at h
-        · rename_i ht
-          refine ⟨ho, ?_⟩
-          have := hk.2; rw [hxa] at this
-          have hkb : k = x.b := by have := Int.eq_of_sub_eq_zero (Int.zero_dvd.mp this); exact this
-          rw [hkb]; exact dvd_sub_of_tmod_eq ht
-        · exact leqFinal_sound ho h hk
-      · split at h
-        · split at h
-          · simp at h
-          · exact leqFinal_sound ho h hk
-        · exact leqFinal_sound ho h hk
+      · simp at h
+      · simp only [Bool.and_eq_true, beq_iff_eq] at h
+        exact ⟨ho, mem_trans_dvd hk.2 (Int.dvd_of_tmod_eq_zero h.1) (Int.dvd_of_tmod_eq_zero h.2)⟩
 
-theorem leq_refl (c : Cong) : leq c c = some true := by
-  unfold leq leqFinal
+theorem leq_refl (c : Cong) : leq c c = true := by
+  unfold leq
   cases hb : c.isBot <;> simp
-  by_cases ha : c.a = 0 <;> simp [ha]
 
-theorem bot_leq (o : Cong) : leq bot o = some true := by simp [leq, bot]
-theorem leq_of_isBot {c : Cong} (h : c.isBot = true) (o : Cong) : leq c o = some true := by
+theorem bot_leq (o : Cong) : leq bot o = true := by simp [leq, bot]
+theorem leq_of_isBot {c : Cong} (h : c.isBot = true) (o : Cong) : leq c o = true := by
   simp [leq, h]
 
-theorem leq_top (c : Cong) : leq c top = some true := by
-  unfold leq leqFinal
+theorem leq_top (c : Cong) : leq c top = true := by
+  unfold leq
   cases hb : c.isBot <;> simp [top]
+
+/-- `operator<=` decides the inclusion of the concretisations -/
+theorem leq_complete {x o : Cong} (h : ∀ k, mem k x → mem k o) : leq x o = true := by
+  unfold leq
+  cases hx : x.isBot
+  · simp only [Bool.false_eq_true, if_false]
+    have hb : mem x.b x := ⟨hx, by simp⟩
+    have hba : mem (x.b + x.a) x := ⟨hx, by
+      have e : x.b + x.a - x.b = x.a := by omega
+      rw [e]; exact Int.dvd_refl _⟩
+    have h1 := h _ hb
+    have h2 := h _ hba
+    simp only [h1.1, Bool.false_eq_true, if_false]
+    -- o.a ∣ x.b - o.b and o.a ∣ x.a
+    have d1 : o.a ∣ x.b - o.b := h1.2
+    have d2 : o.a ∣ x.a := by
+      have := Int.dvd_sub h2.2 h1.2
+      have e : x.b + x.a - o.b - (x.b - o.b) = x.a := by omega
+      rwa [e] at this
+    split
+    · rename_i h0
+      rw [h0.2] at d1
+      have := Int.eq_of_sub_eq_zero (Int.zero_dvd.mp d1)
+      simp [this]
+    · split
+      · rename_i hn hoa
+        rw [hoa] at d2
+        have : x.a = 0 := Int.zero_dvd.mp d2
+        exact absurd ⟨this, hoa⟩ hn
+      · simp [Int.tmod_eq_zero_of_dvd d1, Int.tmod_eq_zero_of_dvd d2]
+  · simp
 
 /-! ### join / widening -/
 
